@@ -51,6 +51,9 @@ pub enum CbOp {
         text: Vec<u8>,
         #[serde(with = "crate::ops::hexbytes")]
         zone: Vec<u8>,
+        /// when the zone is empty: pass a non-NULL pointer with length 0 instead of NULL
+        #[serde(default)]
+        empty_zone_nonnull: bool,
     },
     Delete,
     Stop,
@@ -154,10 +157,15 @@ fn encode_cb(p: &[CbOp]) -> Vec<u8> {
                 v.push(0x57);
                 put_blob(&mut v, n);
             }
-            CbOp::SetName { text, zone } => {
+            CbOp::SetName {
+                text,
+                zone,
+                empty_zone_nonnull,
+            } => {
                 v.push(0x58);
                 put_blob(&mut v, text);
                 put_blob(&mut v, zone);
+                v.push(*empty_zone_nonnull as u8);
             }
             CbOp::Delete => v.push(0x59),
             CbOp::Stop => v.push(0x5A),
@@ -364,16 +372,11 @@ fn native_cb(item: &mut ResponseIterator, prog: &[CbOp], l: &mut L) -> bool {
                 }
             }
             CbOp::SetRawName(n) => {
-                if deleted {
-                    continue;
-                }
+                // allowed on a deleted record too: the native call reports a void record
                 let r = item.set_raw_name(n);
                 l.rc(&r);
             }
-            CbOp::SetName { text, zone } => {
-                if deleted {
-                    continue;
-                }
+            CbOp::SetName { text, zone, .. } => {
                 let z = if zone.is_empty() { None } else { Some(&zone[..]) };
                 let r = match dgen::raw_name_from_str(text, z) {
                     Err(e) => Err(e),
@@ -579,15 +582,21 @@ pub fn exec_c(sc: &ScenC, run_tag: u64, verbose: bool) -> Result<OutC, String> {
         let nlog = match nat {
             Ok(l) => l,
             Err(p) => {
-                bump(&mut stats, "ended_by_unclaimed_native_panic");
+                // The table entries are `extern "C"`: a panic inside one cannot unwind and aborts
+                // the host process. A precondition-respecting call that panics natively is
+                // therefore a call that crashes through the table ("rather than by crashing").
+                bump(&mut stats, "native_panic_would_abort_through_table");
                 log.write_str(&format!("{} native panic", kind));
                 return Ok(OutC {
                     violation: Some(Violation {
-                        props: vec![],
-                        clause: "unclaimed-panic".into(),
-                        op: kind,
-                        key: first_words(&p),
-                        detail: p,
+                        props: vec!["C15"],
+                        clause: "crash".into(),
+                        op: kind.clone(),
+                        key: format!("panic:{}", first_words(&p)),
+                        detail: format!(
+                            "{} on a precondition-respecting script panics ({}); inside the extern \"C\" table entry that aborts the process instead of returning -1",
+                            kind, p
+                        ),
                         step: i,
                     }),
                     log_hash: log.finish(),
@@ -817,7 +826,11 @@ fn gen_cb(rng: &mut Rng, fault_pm: usize) -> Vec<CbOp> {
                 } else {
                     vec![]
                 };
-                CbOp::SetName { text, zone }
+                CbOp::SetName {
+                    text,
+                    zone,
+                    empty_zone_nonnull: rng.bool(),
+                }
             }
             11 => CbOp::Delete,
             12 => {
@@ -860,8 +873,26 @@ pub fn gen_scen(rng: &mut Rng) -> ScenC {
         unique_tags: false,
         max_section: 10,
     };
-    let m = gen::gen_msg(rng, &cfg);
-    let packet = gen::encode_with(&m, &cfg, rng.next_u64());
+    let mut m = gen::gen_msg(rng, &cfg);
+    let mut packet = gen::encode_with(&m, &cfg, rng.next_u64());
+    if rng.chance(1, 25) && packet.len() + 12 < 8191 {
+        // pad to the edge of the declared buffer size: exactly 8191, 8192 or 8193 bytes
+        let target = *rng.pick(&[8191usize, 8192, 8192, 8193]);
+        let pad = target - packet.len() - 11;
+        m.sec[2].push(Rec {
+            name: Name::root(),
+            rtype: T_TXT,
+            class: 1,
+            ttl: 1,
+            rdata: RData::Opaque(vec![b'p'; pad]),
+        });
+        let literal_tail = codec::encode_record(m.sec[2].last().unwrap());
+        // append the record to the already laid-out packet and bump ARCOUNT
+        packet.extend_from_slice(&literal_tail);
+        let ar = ((packet[10] as u16) << 8 | packet[11] as u16) + 1;
+        packet[10] = (ar >> 8) as u8;
+        packet[11] = ar as u8;
+    }
     let fault_pm = *rng.pick(&[0usize, 100, 300]);
     let n = match rng.below(10) {
         0..=5 => rng.range(1, 5),
